@@ -47,6 +47,7 @@ class Feat:
         self.item_base = False      # parameter formulas may choose another base space
         self.export_safe = False    # only constructs inside the documented export subset
         self.item_refs = True       # parameter formulas may return extra references
+        self.partial = False        # formulas that fail naturally for some arguments (12 // x)
         self.__dict__.update(kw)
 
 
@@ -198,6 +199,9 @@ def gen_expr(draw, G, space, rank, env_vars, feat, depth, selfcall=None):
         e = gen_item_call(draw, G, space, rank, env_vars)
         if e is not None:
             return e
+    if kind == "bin" and feat.partial and env_vars and draw(st.integers(0, 3)) == 0:
+        # fails (ZeroDivisionError) when the parameter is 0
+        return ["bin", "//", ["lit", draw(st.sampled_from([12, 30]))], ["var", draw(st.sampled_from(env_vars))]]
     if kind == "bin":
         op = draw(st.sampled_from(["+", "+", "-", "*"]))
         return ["bin", op,
@@ -555,6 +559,11 @@ def item_sids(G, maxn=2):
             n = len(s.formula["params"])
             for a in range(maxn):
                 out.append(s.path + ((a,) * n,))
+            # the dynamic children of the first instance, and an instance of a parametrised child inside it
+            for cn, ch in s.children.items():
+                out.append(s.path + ((0,) * n, cn))
+                if ch.formula is not None:
+                    out.append(s.path + ((0,) * n, cn, (1,) * len(ch.formula["params"])))
     return out
 
 
